@@ -449,6 +449,36 @@ BUILTIN_MODELS["builtins.min"] = Model("builtins.min", _minmax("min"), "min(c) i
 BUILTIN_MODELS["builtins.max"] = Model("builtins.max", _minmax("max"), "max(c) is an element of c not smaller than any other")
 
 
+def _anyall(which):
+    def f(ex, st, args, kwargs, node):
+        if len(args) != 1 or kwargs:
+            raise Unsupported(f"{which}(): arity", node)
+        (v,) = args
+        if v.is_py and isinstance(v.py, tuple) and len(v.py) == 3 and v.py[0] == "genexp":
+            return ex.quantified(which, v.py[1], v.py[2])
+        info = ex.iter_info(v, st, node)
+        if info.kind == "concrete":
+            ts = [ex.truth(it, st, node) for it in info.items]
+            return bool_val(z_and(*ts) if which == "all" else z_or(*ts))
+        if info.kind == "indexed":
+            i = z3.Int(fresh_name("qa"))
+            guard = z3.And(i >= 0, i < info.n)
+            body = z3bool(ex.truth(info.item(i), st, node))
+        else:
+            i = fresh(info.elem, "qa")
+            guard = z3.Select(info.set_term, i)
+            body = z3bool(ex.truth(Val(info.elem, i), st, node))
+        if which == "all":
+            return Val(T.BOOL, z3.ForAll([i], z3.Implies(guard, body)))
+        return Val(T.BOOL, z3.Exists([i], z3.And(guard, body)))
+
+    return f
+
+
+BUILTIN_MODELS["builtins.any"] = Model("builtins.any", _anyall("any"), "any(c): some element of c is truthy")
+BUILTIN_MODELS["builtins.all"] = Model("builtins.all", _anyall("all"), "all(c): every element of c is truthy")
+
+
 @builtin("builtins.abs", "abs(x)")
 def _abs(ex, st, args, kwargs, node):
     (v,) = args
